@@ -11,6 +11,8 @@
  * vm_release is replaced by its contract (contracts/vm_contracts.h).
  */
 #define VERIF_VM_RELEASE_STUB 1
+#define VERIF_RELEASE_CHILD in_k
+extern unsigned int in_k;
 #include "vm_contracts.h"
 #include "libc_stubs.h"
 #include "spec_int.h"
@@ -52,7 +54,7 @@ struct verif_ghost __verif_g;
 /* ---- named inputs (witness extraction reads these from the trace) ---- */
 struct in_operand_s { uint8_t b[12]; } in_operand;
 struct in_operand_s nondet_operand(void);
-uint32_t in_k;            /* index of interest inside containers */
+unsigned int in_k;        /* index of interest inside containers */
 uint32_t in_stack_size, in_stack_cap;
 NanoValue in_v0, in_v1, in_v2;   /* top, top-1, top-2 as the harness built them */
 uint32_t in_len0, in_len1, in_len2;
@@ -109,7 +111,7 @@ static uint32_t mk_rc(void) { uint32_t r = nondet_u32(); __CPROVER_assume(r >= 1
 #define M_HASHMAP 512u  /* hashmap with at most one entry per bucket chain */
 #define M_INT 128u      /* TAG_INT only */
 #define M_BOOL 256u     /* TAG_BOOL only */
-#define M_ANY (127u | M_HASHMAP)
+#define M_ANY 127u      /* hashmaps only where the registry asks for them (M_HASHMAP): they triple the formula */
 #ifndef VERIF_ARR_CAP
 #define VERIF_ARR_CAP (1u << 20)   /* arrays of any length up to 2^20; obligations whose handler loops over the elements pin a small cap and are labelled bounded */
 #endif
